@@ -136,6 +136,18 @@ CLAIMED = {
         "wrappers are run on NumPy, torch and tensorflow bodies over many seeds and compared with fancy-indexing by the returned indexes and with the model.",
    technique="Lean 4 proof (for every draw: list combinatorics, sortedness of mergeSort) + differential run over seeds on three backends",
    design="§5 C16"),
+ "C17": dict(
+   text="Theorems (Props/C17.lean) about the element model of the masked arithmetic (value + validity flag; sum valid when all summands are; zero_filled; fix_nan) and of the four representations transcribed from "
+        "torch/representation: for ANY scalar type, the distance, X/Y angle, inner angle and point–line representations are exactly 0 as soon as one input point is missing (…_missing_zero) and the inner angle, the "
+        "point–line distance and the argument of atan are never NaN (…_not_nan); over the reals with valid inputs of any dimension they equal the textbook formulas: ‖p1 − p2‖ (distance_formula), atan(Δy / Δx) "
+        "(angle_formula), acos of the normalised dot product at p2 (innerAngle_formula), and Heron's height = √(|u|²|w|² − (u·w)²) / |w|, the distance from p1 to the line p2p3 (pointLine_formula). Assembled "
+        "representation: the limb index lists are the header's limbs shifted by component offsets, in header order, and stay inside the header (limbPoints_spec, limbPoints_in_range); the joint triples are exactly the "
+        "chains (mem_trianglePoints); the advertised size is the number of rows (output_size_is_row_count); row point·dims + dim of a points block is that coordinate, zero-filled (pointsRep_row); group_embeds is the "
+        "(embed, batch, len) → (batch, len, embed) transposition (groupEmbeds_entry). Partial: IEEE overflow / rounding (±inf, acos of 1 + ε) and atan / acos themselves are outside the theorems — decided on the "
+        "implementation: torch, tensorflow and numpy modules against binary64 formulas, each other and the model; exact zeros and finiteness under masks with coincident / vertical / collinear tuples; assembled "
+        "layouts for random headers block by block.",
+   technique="Lean 4 proof (element-level masked semantics for any scalar; Mathlib real analysis for the formulas incl. Heron; list combinatorics for the layout) + differential correspondence on three backends",
+   design="§5 C17"),
  "C18": dict(
    text="Theorem (Props/C18.lean): for the cache protocol with atomic lookup+copy and update sections (the code's locked regions), ANY number of threads and ANY schedule, a finished thread holds exactly the "
         "decode of its own file (reads_isolated, by the invariant 'the cache is empty or a consistent snapshot of one file's header'), plus progress; the protocol with a separate compare and fetch is proved to violate "
